@@ -360,6 +360,7 @@ def correspond(run, exe, ins, variants, T, oracle=None, stream="lexer"):
                 shown += 1
                 if shown <= 3:
                     run.cov.setdefault("correspondence_examples", []).append({"input": ins[idx][:200], "model": a, "impl": b})
+            run.diff_inputs = getattr(run, "diff_inputs", []) + [ins[idx] for idx, _, _ in diffs]
             if not getattr(run, "pending_break", None):
                 idx, a, b = min(diffs, key=lambda d: len(ins[d[0]]))
                 run.pending_break = ("correspondence", f"[{variant}/{stream}] model and implementation differ on {len(diffs)} of {len(ins)} inputs; first: input {ins[idx][:120]!r}: model {a!r} vs impl {b!r}")
@@ -408,6 +409,15 @@ def lexer_check(run, module, oracle, n_quick, n_thorough, variants=("debug", "re
     results = correspond(run, exe, ins, variants, T, oracle)
     for variant, cases in results.items():
         run_oracle(run, cases, T, oracle, "lexer", variant, need_ok=need_ok)
+    # the correspondence broke: search around the disagreeing inputs for an input on which the property fails
+    if getattr(run, "diff_inputs", None) and not any(v["found_input"] for v in run.violations):
+        amp = gen.amplify(run.diff_inputs, rng.fork("amp"))
+        run.cov["amplified_inputs"] = len(amp)
+        for variant in variants:
+            cases = impl.run_lex(variant, amp, mode="lexa")
+            results[variant] = results[variant] + cases
+            run_oracle(run, cases, T, oracle, "amplified", variant, need_ok=need_ok)
+        ins += amp
     if premise:
         monitor_violations(run, exe, ins, premise[0], premise[1])
     run.sample({"source": ins[len(ins) // 3]})
@@ -465,7 +475,7 @@ def check_C04(run):
     lexer_check(run, "C04", O.c04, 3000, 80000,
                 premise=({"lines_ok": "true", "debt": "false", "consumed": "true"},
                          "premise of C04_line_table fails in the model run (line protocol monitor / pending line feed / input not consumed)"),
-                extra_inputs=lambda rng, run: [x for t in ("%macro m; * a\nb; %mend;", "%m(a\n=1)", "'a\nb'n", "%let a=%str(x\ny);", "data;\ndatalines;\n1\n;", "%put \"a\n&b\";")
+                extra_inputs=lambda rng, run: gen.lf_stream(rng.fork("lf"), 300 if run.tier == "quick" else 3000) + [x for t in ("%macro m; * a\nb; %mend;", "%m(a\n=1)", "'a\nb'n", "%let a=%str(x\ny);", "data;\ndatalines;\n1\n;", "%put \"a\n&b\";")
                                                for x in gen.lf_everywhere(t)])
     run.assumptions += ["C04_line_table / C04_line_count are conditional on the line-protocol monitor of the model run (checked on every input); token and error line/column and end positions are tested by the oracle, not proved",
                         "end position of a token ending in a line feed follows the reading of DESIGN.md §7 C04 (pinned by the crate's tests/util.rs)"]
@@ -477,4 +487,135 @@ def check_C09(run):
     run.assumptions += ["C09_error_offsets is proved for every program; anchoring of last_token in the final stream and the missing-symbol/virtual-token pairing are tested by the oracle and monitored (g_err_ok), not proved"]
 
 
-CHECKS = {"C04": check_C04, "C09": check_C09, "C05": check_C05, "C03": check_C03, "C02": check_C02, "C19": check_C19}
+def check_C10(run):
+    lexer_check(run, "C10", O.c10, 3000, 80000,
+                extra_inputs=lambda rng, run: [t for f in gen.sample_files()[:1] for t in gen.truncations(f, max(1, len(f) // 150))])
+    run.assumptions += ["balance of string expressions, datalines triples and label colons is tested by the oracle on every input (all truncations of a sample program included); proved: the pre-loaded parenthesis/semicolon expectations of every built-in"]
+
+
+def check_C06(run):
+    rngk = Rng(run.seed)
+    state = {}
+
+    def oracle(cx):
+        km = state.get("km")
+        return O.c06(cx, km)
+
+    # keyword map by execution, for every identifier-like token text that will be seen: collected lazily
+    T = impl.tables("debug")
+    # first pass needs the kwmap: build it from all ASCII words of the inputs after lexing; approximate by
+    # asking the helper for every upper-cased identifier-like substring of the fragment tables
+    words = set()
+    for frag in gen.FR + gen.OPEN_ATOMS + gen.CTX_ATOMS + gen.CONTEXTS:
+        for w in re.findall(r"[A-Za-z_][A-Za-z0-9_]*", frag):
+            words.add(w.upper())
+    import translate
+    tt = translate.parse_token_type()
+    for k, _ in tt["kws"] + tt["mkws"]:
+        words.add(k)
+    state["km"] = impl.kwmap("debug", words)
+
+    class LazyMap(dict):
+        def get(self, k, d=None):
+            if k not in self:
+                self.update(impl.kwmap("debug", [k]))
+            return dict.get(self, k, d)
+    state["km"] = LazyMap(state["km"])
+    lexer_check(run, "C06", oracle, 3000, 80000,
+                extra_inputs=lambda rng, run: [rng.choice(["", " ", "x=", "%"]) + v + rng.choice(["", " ", ";", "("])
+                                               for k, _ in (tt["kws"] + tt["mkws"]) for v in gen.case_variants(rng, k, 1)])
+    run.assumptions += ["per-type text shapes (DESIGN 6.1) are tested by the oracle on every token of every input; proved: the keyword/character tables they rest on",
+                        "keyword spelling is judged against the keyword maps executed from the built crate"]
+
+
+def case_pairs_check(run, results, ins, variants_of, T, variant="release"):
+    """lex case variants of every input and compare with the base result"""
+    n = 0
+    base = results[variant]
+    var_inputs = []
+    owner = []
+    for i, s_ in enumerate(ins):
+        for v in variants_of(s_):
+            if v != s_:
+                var_inputs.append(v)
+                owner.append(i)
+    cases = impl.run_lex(variant, var_inputs, mode="lex")
+    run.count(f"case-variants:{variant}", len(cases))
+    for c, i in zip(cases, owner):
+        fails = O.c16_pair(base[i], c)
+        if fails:
+            n += 1
+            if n <= 3:
+                def still(s2, _i=i):
+                    vs = [x for x in variants_of(s2) if x != s2][:3]
+                    cs = impl.run_lex(variant, [s2] + vs, jobs=1)
+                    return any(O.c16_pair(cs[0], x) for x in cs[1:])
+                small = shrink_input(ins[i], still)
+                run.violation("oracle", f"[{variant}] case variant lexes differently: {fails[0]}", src=small, extra={"variant": c.src[:200], "original": ins[i][:200]})
+    return n
+
+
+def check_C16(run):
+    rng = Rng(run.seed).fork("C16v")
+    import translate
+    tt = translate.parse_token_type()
+    kwins = []
+    for k, _ in tt["kws"]:
+        kwins += [f"x {k.lower()} y;"]
+    for k, _ in tt["mkws"]:
+        kwins += [f"%{k.lower()} ", f"x=%{k.lower()}(a)"]
+    for m in ["eq", "ne", "lt", "le", "gt", "ge", "and", "or", "not", "in"]:
+        kwins += [f"%eval(a {m} b)", f"%if a {m} b %then", f"%eval(({m}))", f"%eval(1{m} 2)"]
+    for suf in ["b", "d", "dt", "n", "t", "x"]:
+        kwins += [f"'41'{suf} ", f"\"41\"{suf};", f"\"&a\"{suf}"]
+    kwins += ["0ffx", "1e5", "1.5e-3", "%sysevalf(1e3)", "%eval(0ffx)", "datalines;\n;", "cards4;\n;;;;", "lines ;\n;", "a=0ABCDEFx;"]
+    res = lexer_check(run, "C16", lambda cx: [], 2500, 60000, variants=("release",), extra_inputs=lambda r, ru: kwins, need_ok=False)
+    T = impl.tables("debug")
+    ins = [c.src for c in res["release"]]
+    n1 = case_pairs_check(run, res, ins, lambda s_: gen.case_variants(rng, s_, 1 if run.tier == "quick" else 3), T)
+    # all 2^n variants of every keyword / mnemonic / suffix template
+    allv = []
+    for t in kwins[: (400 if run.tier == "quick" else len(kwins))]:
+        vs = gen.all_case_variants(t, limit=64 if run.tier == "quick" else 4096, rng=rng)
+        allv.append((t.lower(), vs))
+    flat = [v for _, vs in allv for v in vs]
+    cases = impl.run_lex("release", flat, mode="lex")
+    run.count("all-case-variants:release", len(cases))
+    k = 0
+    for _, vs in allv:
+        b = cases[k]
+        for j in range(1, len(vs)):
+            f = O.c16_pair(b, cases[k + j])
+            if f:
+                run.violation("oracle", f"case variants of a keyword template lex differently: {f[0]}", src=vs[j], extra={"other": vs[0]})
+                break
+        k += len(vs)
+    run.cov["case_variant_failures"] = n1
+    run.assumptions += ["whole-lexer case independence is tested (random/extreme variants of every input, all or sampled 2^n variants of keyword templates); proved: the classification helpers"]
+
+
+def check_C18(run):
+    res = lexer_check(run, "C18", lambda cx: [], 3000, 80000, variants=("release", "release-sep", "debug-sep"), need_ok=False)
+    T = impl.tables("debug")
+    n = 0
+    nsep = 0
+    for a, b in zip(res["release"], res["release-sep"]):
+        if a.src is None or a.outcome != "ok" or b.outcome != "ok":
+            if a.outcome != b.outcome:
+                run.violation("oracle", f"outcome differs between feature builds: {a.outcome} vs {b.outcome}", src=a.src)
+            continue
+        f = O.c18_pair(a, b, T)
+        nsep += sum(1 for t in b.toks if t.type == T.T("MacroSep"))
+        if f:
+            n += 1
+            if n <= 3:
+                def still(s2):
+                    x = impl.run_lex("release", [s2], jobs=1)[0]
+                    y = impl.run_lex("release-sep", [s2], jobs=1)[0]
+                    return x.outcome == "ok" and y.outcome == "ok" and bool(O.c18_pair(x, y, T))
+                run.violation("oracle", f"macro_sep build differs from plain build by more than MacroSep tokens: {f[0]}", src=shrink_input(a.src, still))
+    run.cov["macro_sep_tokens_seen"] = nsep
+    run.assumptions += ["equality of the two feature builds up to MacroSep tokens is tested on every input (both builds of the implementation, both configurations of the model); proved: the guard predicate"]
+
+
+CHECKS = {"C04": check_C04, "C06": check_C06, "C10": check_C10, "C16": check_C16, "C18": check_C18, "C09": check_C09, "C05": check_C05, "C03": check_C03, "C02": check_C02, "C19": check_C19}
